@@ -63,7 +63,7 @@ def generate(rng, tier) -> dict:
             # the merged accumulator is then fed the REST of the stream (the second accumulator was declared for
             # all of x[k:] but had only received x[k:n-tail] when the two were added)
             "tail": rng.choice([0, 0, 1, rng.randint(1, max(1, n - k - 1))]) if n - k >= 2 else 0,
-            "chunks_c": composition(rng, rng.randint(1, 30))}
+            "chunks_c": composition(rng, rng.randint(1, 30)), "reuse": rng.random() < 0.4}
 
 
 def _fix(parts, total):
@@ -141,18 +141,30 @@ def truth(x32):
     return {"n": n, "mean": mean, "var": var, "skew": skew, "kurt": kurt, "min": x.min(0), "max": x.max(0), "const": const}
 
 
+REUSE = [False]  # set per scenario: chunks are handed over in ONE scratch buffer that the caller refills
+
+
 def push(x32, parts, mode, nsamps, strided=False):
     from sigpyproc.core.stats import ChannelStats
 
     st = ChannelStats(x32.shape[1], nsamps)
     t = 0
+    scratch = np.empty(max(parts, default=1) * x32.shape[1], dtype=x32.dtype) if REUSE[0] else None
     for j, p in enumerate(parts):
         flat = np.ascontiguousarray(x32[t : t + p]).ravel()
         if strided and j % 2 == 1:  # the same values handed over as a non-contiguous 1-D view
             wide = np.zeros(flat.size * 2, dtype=flat.dtype)
             wide[::2] = flat
             flat = wide[::2]
-        st.push_data(flat, t, mode=mode)
+        if scratch is not None:
+            # a streaming caller: one buffer, refilled for every chunk (what read_plan's blocks are); what the
+            # accumulator was given is overwritten as soon as the call returns
+            view = scratch[: flat.size]
+            view[:] = flat
+            st.push_data(view, t, mode=mode)
+            view[:] = np.float32(-7.7e7)
+        else:
+            st.push_data(flat, t, mode=mode)
         t += p
     return st
 
@@ -214,6 +226,9 @@ def execute(sc, ctx) -> None:
     x = make_data(sc)
     n, mode = sc["n"], sc["mode"]
     tr = truth(x)
+    REUSE[0] = bool(sc.get("reuse"))
+    if REUSE[0]:
+        ctx.probe("chunks-handed-over-in-one-reused-buffer")
     ctx.probe(f"mode:{mode}")
     if sc["family"] == "onebit":
         ctx.probe("1-bit-data")
